@@ -164,7 +164,11 @@ let remote_host =
 //@@ splice before_stmt
 BufReaderWrite::new(
 //@@ with
-        proof { assert(stream.sent() =~= sent0 + connect_head(remote_url, proxy_url)); } // id: exactly_one_connect_head_written_before_the_proxy_answers [C12]
+        proof {
+            broadcast use axiom_credentials_need_an_authority;
+            assert(url_has_credentials(proxy_url) ==> url_has_authority(proxy_url));
+            assert(is_prefix(sent0, stream.sent()) && is_connect_head(stream.sent().skip(sent0.len() as int), remote_url, proxy_url)); // id: exactly_one_connect_head_written_before_the_proxy_answers [C12]
+        }
 //@@ splice before
 let err = ErrorKind::ConnectError {
 //@@ with
@@ -179,7 +183,8 @@ TlsHandshaker::new()
                 && Some(tls_domain(&*t)) == url_host(remote_url)
                 && flags_are(tls_flags(&*t), base_settings.accept_invalid_certs, base_settings.accept_invalid_hostnames)
                 && tls_roots(&*t) == base_settings.root_certificates.0@
-                && wrote(&tls_inner(&*t).sp_inner()) == stream.sent() + connect_head(remote_url, proxy_url)),
+                && is_prefix(stream.sent(), wrote(&tls_inner(&*t).sp_inner()))
+                && is_connect_head(wrote(&tls_inner(&*t).sp_inner()).skip(stream.sent().len() as int), remote_url, proxy_url)),
             res matches Ok(s) ==> s.dialled() == stream.dialled() && s.tcp_peer() == stream.tcp_peer(), // id: tunnel_runs_over_the_proxy_connection_handed_in [C08,C12]
 //@@ end
 //@@ endif
